@@ -884,12 +884,21 @@ func (n *FuncType) String() string {
 		if i > 0 {
 			s += ", "
 		}
-		s += param.String()
+		if n.IsVariadic && i == len(n.Parameters)-1 && param.Type != nil {
+			if param.Ident != nil {
+				s += param.Ident.Name + " "
+			}
+			s += "..." + param.Type.String()
+		} else {
+			s += param.String()
+		}
 	}
 	s += ")"
 	if len(n.Result) > 0 {
-		if n.Result[0].Ident == nil {
-			s += " " + n.Result[0].Type.String()
+		res := n.Result[0]
+		typ, isChan := res.Type.(*ChanType)
+		if len(n.Result) == 1 && res.Ident == nil && !(isChan && typ.Direction == ReceiveDirection) {
+			s += " " + res.Type.String()
 		} else {
 			s += " ("
 			for i, res := range n.Result {
